@@ -392,6 +392,23 @@ def run_se(case, viol, obs):
             elif s0[0] == "solved" and len(s0) > 1 and isinstance(s0[1], (int, float)) and s2[1] > s0[1] + 1e-6 * max(1, abs(s0[1])):
                 viol.append({"sig": f"C10/additional-start-end-worsens-objective/{cls}" + ("/node" if node else ""), "msg": f"without: {s0}; with starts={kw2.get('additional_starts')} ends={kw2.get('additional_ends')}: {s2}; {desc}"[:900]})
             # endpoints: only sources / sinks / declared nodes (C01 rule) - judged by the class-level monitor
+        # (3) ONE node declared both as additional start and as additional end keeps both roles: against 'end only' and against 'start only'
+        # the admissible routes can only become more
+        if rng.random() < 0.6:
+            v = rng.choice(inner)
+            outs = {}
+            for nm, kw_ in (("end-only", dict(kw0, additional_ends=[v])), ("start-only", dict(kw0, additional_starts=[v])), ("both", dict(kw0, additional_starts=[v], additional_ends=[v]))):
+                outs[nm] = summary(cls, run({"cls": cls, "spec": sp, "kw": kw_}))
+            obs["c10.start_and_end_same_node"] += 1
+            sb = outs["both"]
+            for nm in ("end-only", "start-only"):
+                so = outs[nm]
+                if "time-limit" in (so[0], sb[0]) or "exc" in (so[0], sb[0]):
+                    continue
+                if so[0] == "solved" and sb[0] != "solved":
+                    viol.append({"sig": f"C10/start-and-end-at-one-node-loses-a-role/{cls}" + ("/node" if node else ""), "msg": f"{nm} at {v}: {so}; both at {v}: {sb}; {desc}"[:900]})
+                elif so[0] == "solved" and len(so) > 1 and isinstance(so[1], (int, float)) and isinstance(sb[1], (int, float)) and sb[1] > so[1] + 1e-6 * max(1, abs(so[1])):
+                    viol.append({"sig": f"C10/start-and-end-at-one-node-loses-a-role/{cls}" + ("/node" if node else ""), "msg": f"{nm} at {v}: {so}; both at {v}: {sb} (worse); {desc}"[:900]})
     for sg, msg in M.ROUTES.drain():
         if "/bad-start/" in sg or "/bad-end/" in sg:
             viol.append({"sig": sg.replace("C01/", "C10/endpoint/"), "msg": msg + " :: " + desc[:400]})
